@@ -73,6 +73,9 @@ def check_property(pid, tier, seed):
                 hs = [h for h in sel if h.unit.crate == c]
                 log(f"[{pid}] kani: crate {c}: {len(hs)} harnesses")
                 res, out, secs = K.run_crate(scratch, c, hs)
+                os.makedirs(os.path.join(VERIF, "logs"), exist_ok=True)
+                with open(os.path.join(VERIF, "logs", f"{pid}-{c.replace('/', '_')}.kani.log"), "w") as lf:
+                    lf.write(out)
                 cmds.append(f"(cd <scratch>/{c} && cargo kani -Z function-contracts -Z stubbing --exact "
                             f"--harness <{len(hs)} harnesses> -j {JOBS})")
                 kres.update(res)
